@@ -65,10 +65,42 @@ def charset_of(op, av):
                 iv.append((a, a))
             elif o is C.RANGE:
                 iv.append((a[0], a[1]))
+            elif o is C.CATEGORY:
+                iv.extend(category_set(a))
             else:
                 raise Unsupported('char class item %s' % o)
         return complement(iv) if neg else norm(iv)
     raise Unsupported('op %s' % op)
+
+
+_CATEGORY_PROBE = {'CATEGORY_DIGIT': r'\d', 'CATEGORY_NOT_DIGIT': r'\D',
+                   'CATEGORY_SPACE': r'\s', 'CATEGORY_NOT_SPACE': r'\S',
+                   'CATEGORY_WORD': r'\w', 'CATEGORY_NOT_WORD': r'\W'}
+_category_cache = {}
+
+
+def category_set(cat):
+    """\\d, \\s, \\w ... of a str pattern: the code points `re` itself
+    accepts (Unicode categories), as intervals."""
+    name = str(cat).split('.')[-1]
+    if name not in _CATEGORY_PROBE:
+        raise Unsupported('category %s' % cat)
+    if name not in _category_cache:
+        import re as _re
+        rx = _re.compile(_CATEGORY_PROBE[name])
+        iv = []
+        start = None
+        for cp in range(MAXCP + 1):
+            if rx.match(chr(cp)):
+                if start is None:
+                    start = cp
+            elif start is not None:
+                iv.append((start, cp - 1))
+                start = None
+        if start is not None:
+            iv.append((start, MAXCP))
+        _category_cache[name] = tuple(iv)
+    return _category_cache[name]
 
 
 # ---- NFA ---------------------------------------------------------------------
